@@ -1,7 +1,7 @@
 (** C16 — connection IDs: limits honoured both ways, retirements reported, routing clean.
     Only statements live here; each is closed by [exact] of a lemma proved in ConnIDs/. *)
 From Coq Require Import List ZArith Bool.
-From V Require Import Gen.Params Lib.Hex ConnIDs.Model ConnIDs.ProofsGen ConnIDs.ProofsMgr ConnIDs.ProofsMgr2 ConnIDs.ProofsMgr3 ConnIDs.ProofsMgr4 ConnIDs.Routing ConnIDs.ProofsRouting ConnIDs.GenRoute ConnIDs.ProofsGenRoute.
+From V Require Import Gen.Params Lib.Hex ConnIDs.Model ConnIDs.ProofsGen ConnIDs.ProofsMgr ConnIDs.ProofsMgr2 ConnIDs.ProofsMgr3 ConnIDs.ProofsMgr4 ConnIDs.ProofsMgr5 ConnIDs.Routing ConnIDs.ProofsRouting ConnIDs.GenRoute ConnIDs.ProofsGenRoute.
 Import ListNotations.
 Open Scope Z_scope.
 
@@ -172,6 +172,25 @@ Theorem C16_tokens_exact_set : forall init ops st,
   (disc (m_log (mgr_close st)) = true -> forall t, reg t (m_log (mgr_close st)) = false).
 Proof. exact tokens_exact_set. Qed.
 Print Assumptions C16_tokens_exact_set.
+
+(** Round 4 - the token discipline derived: on every history the connection produces in which a
+    frame for a sequence number that is not queued never carries a token the manager already
+    holds ([op_okt]: every sequence number has its own token, retransmissions repeat it), the
+    callbacks never register a registered token nor remove an unregistered one, the held tokens
+    are pairwise distinct, the transport's token map is exactly {active token} + probing tokens,
+    and Close empties it (hypothesis [disc] of C16_tokens_exact_set discharged). *)
+Theorem C16_token_discipline : forall init ops st,
+  reachP op_okt init ops st ->
+  disc (m_log st) = true /\ NoDup (all_toks st) /\
+  (forall t, reg t (m_log st) = true <-> In t (atoks st) \/ In t (ptoks (m_probing st))) /\
+  disc (m_log (mgr_close st)) = true /\ (forall t, reg t (m_log (mgr_close st)) = false).
+Proof. exact token_discipline. Qed.
+Print Assumptions C16_token_discipline.
+
+Example C16_token_history_nonvacuous :
+  reachP op_okt w_init (rev w_good) (mgr_run w_good (mgr_init w_init)).
+Proof. exact (hist_oktb_reach w_init w_good w_good_okt). Qed.
+Print Assumptions C16_token_history_nonvacuous.
 
 Example C16_tokens_discipline_nonvacuous : disc (m_log (mgr_run w_good (mgr_init w_init))) = true.
 Proof. exact w_good_disc. Qed.
